@@ -3,6 +3,7 @@ import TracklibVerif.Lemmas.TextIOAll3
 import TracklibVerif.Lemmas.TextIOGpxAF
 import TracklibVerif.Lemmas.TextIOWktFile
 import TracklibVerif.Lemmas.TextIOSession
+import TracklibVerif.Lemmas.TextIOStrFmt
 /-! # C13 — tracks and networks written to file are read back unchanged
 
 Theorems about the model `TV.TextIO` (`Model/TextIO.lean`), which mirrors
@@ -745,5 +746,31 @@ example :
     (runOuts st [] [.print ⟨⟨2021, 4, 3, 10, 0, 0⟩, 0⟩, .readLast]).map (fun x => match x.1 with | .stamp t => t | _ => none)
       = [none, some ⟨⟨2021, 4, 3, 10, 0, 0⟩, 0⟩] := by
   decide +kernel
+
+/-! ### the string-level algorithms of `ObsTime.__str__` / `__precompileReadFmt` (`Lemmas/TextIOStrFmt.lean`) -/
+
+/-- **`str_string_level`**: `ObsTime.__str__` works on the format STRING — for every code of `__codes` in turn, `find` the code
+and splice the zero-padded field over its two characters until it is found no more (`strAlgo`: `find2` = `str.find` of a
+two-character string, `splice2` = `chaine[:id] + new + chaine[id+2:]`). For every format whose literal characters are not code
+letters (`LitsOK`: no `D M Y h m s z` outside the codes; digits, punctuation, blanks, `T`, `Z`, … are fine; no backslash, for
+which `__str__` has a further loop) this gives exactly the text of the token-level model `printTime (tokenize fmt)` — the
+inserted digits never make up a new code with what follows. All theorems about `printTime` therefore speak of the string
+algorithm. -/
+theorem str_string_level (fmt : Str) (h : LitsOK fmt) (t : Stamp) : strAlgo fmt t = printTime (tokenize fmt) t :=
+  strAlgo_eq fmt h t
+
+/-- **`precompile_string_level`**: the same for `__precompileReadFmt` (formats without `*`): `format.find(code)` for every code,
+sorted by position and shifted, is the token-level `precompile`. -/
+theorem precompile_string_level (fmt : Str) (h : LitsOK fmt) : precompileStr fmt = precompile (tokenize fmt) :=
+  precompileStr_eq fmt h
+
+/-- the formats of the streams satisfy the hypothesis; and it is needed: with the literal `D` after the code, the digits `12`
+printed for day 12 make up a new `2D` with it — the string algorithm prints `112`, the tokens say `12D` -/
+example : LitsOK "2D/2M/4Y 2h:2m:2s".toList ∧ LitsOK "4Y-2M-2DT2h:2m:2s.3zZ".toList ∧ LitsOK "4Y2M2D2h2m2s".toList
+    ∧ LitsOK "[4Y] (2M) {2D}".toList ∧ LitsOK "1D/1M/4Y 1h:1m:1s".toList :=
+  ⟨litsOK_of_b _ (by decide), litsOK_of_b _ (by decide), litsOK_of_b _ (by decide), litsOK_of_b _ (by decide), litsOK_of_b _ (by decide)⟩
+example : strAlgo "2D/2M/4Y 2h:2m:2s".toList ⟨⟨2024, 2, 29, 23, 59, 59⟩, 0⟩ = "29/02/2024 23:59:59".toList := by decide +kernel
+example : strAlgo "2DD".toList ⟨⟨2024, 2, 12, 0, 0, 0⟩, 0⟩ = "112".toList
+    ∧ printTime (tokenize "2DD".toList) ⟨⟨2024, 2, 12, 0, 0, 0⟩, 0⟩ = "12D".toList := by decide +kernel
 
 end TV.C13
